@@ -161,6 +161,17 @@ def check(run):
     if rep.get("matcher_model_disagreements"):
         run.violation("broken-correspondence", {"kind": "x64-matcher-model"}, f"lib/x64sweep.py's transcription of match_format_string disagrees with the plugin on {len(rep['matcher_model_disagreements'])} lines",
                       {"record": rep["matcher_model_disagreements"][:5]}, found_input=False)
+    # riscv operands llvm-mc 14 cannot judge (Zcmp register lists x stack adjustments, Zfa constants, CSR numbers): the independent
+    # reference written from the ISA manuals and validated against the GNU-as vectors the repo pins (shared with C04)
+    try:
+        import rvspecial
+        st = rvspecial.sweep(run, thorough)
+        run.coverage.setdefault("distribution", {})
+        total += sum(v for k, v in st.items() if isinstance(v, int) and k in ("zcmp_literal", "zcmp_runtime", "fli", "csr_literal", "csr_runtime", "zcmp_count_literal", "zcmp_count_runtime"))
+        rv_special_stats = st
+    except Exception as e:      # noqa
+        run.violation("broken-correspondence", {"kind": "riscv-special-reference"}, f"the riscv special-operand reference could not run: {e}", found_input=False)
+        rv_special_stats = {}
     if not proofs_ok and hasattr(run, "broken_build"):
         found = (len(run.violations) + len(run.known_hit)) > found_before
         run.violation("broken-obligation", {"kind": "lean-build", "first": run.broken_build["first_error"][:200]}, run.broken_build["first_error"], run.broken_build, found_input=found)
@@ -169,6 +180,7 @@ def check(run):
     run.coverage["rule"] = ("every form of the aarch64 / riscv32 / riscv64 tables x {base, last, spread} and every slot over its whole domain (boundary-directed above "
                             f"{256 if thorough else 64} values), dynasm bytes vs llvm-mc bytes; differences disassembled and evaluated; non-trivial = byte-identical comparison")
     run.coverage["traces_validated_against_impl"] = total
+    stats["riscv_special_operands"] = rv_special_stats
     run.coverage["distribution"] = stats
     run.coverage["samples"] = ["add x1, x2, 4095 / add x1, x2, #4095", "lb x5, [x6, -2048] / lb x5, -2048(x6)"]
 
